@@ -237,8 +237,15 @@ func (c *Channel) Invoke(ctx context.Context, method string, req, resp interface
 		cloner = ProtoCloner{}
 	}
 
+	// Copy the request now, while the caller still owns it: the handler decodes
+	// it in another goroutine, possibly after this call has already returned
+	// (e.g. on cancellation) and the caller has reused the message.
+	reqCopy, err := cloner.Clone(req)
+	if err != nil {
+		return err
+	}
 	codec := func(out interface{}) error {
-		return cloner.Copy(out, req)
+		return cloner.Copy(out, reqCopy)
 	}
 	ctx, cancel := context.WithCancel(ctx)
 	sts := internal.UnaryServerTransportStream{Name: method}
